@@ -9,6 +9,8 @@ package main
 
 import (
 	"fmt"
+	"go/token"
+	"go/types"
 
 	"golang.org/x/tools/go/ssa"
 )
@@ -32,6 +34,7 @@ func (m *Model) RunEvalErr(s *Sink, rule string) {
 				if m.evalWrapper(fn) != 0 {
 					continue // the wrapper itself: it hands the result and its error test to the caller
 				}
+				m.errorBranchReturns(s, rule, fn, c, cnt)
 				bad := m.untestedUse(c, evalValue(m, c), map[ssa.Value]bool{})
 				if bad == nil {
 					s.OK(rule, key, m.InstrPos(c), "every use is isError(x), a return, or lies under isError(x) == false")
@@ -138,4 +141,91 @@ func (m *Model) untestedUse(root *ssa.Call, v ssa.Value, seen map[ssa.Value]bool
 		}
 	}
 	return nil
+}
+
+// errorBranchReturns: once an Eval result has been found to be an error (the true side of isError(x)), the function
+// returns it — itself, wrapped in a new error, or (functions that evaluate a list) as the only element of the returned
+// slice, which is how their callers recognise a failure. Control must not flow back into the normal path: an error that
+// is tested and then replaced by a value, or left among the results, does not fail the render.
+func (m *Model) errorBranchReturns(s *Sink, rule string, fn *ssa.Function, c *ssa.Call, cnt int) {
+	v := evalValue(m, c)
+	errT := m.namedType("object", "Error")
+	var carries func(r ssa.Value, d int) bool
+	carries = func(r ssa.Value, d int) bool {
+		if d > 4 {
+			return false
+		}
+		r = stripIface(r)
+		if r == v || r == ssa.Value(c) {
+			return true
+		}
+		switch x := r.(type) {
+		case *ssa.Phi:
+			for _, e := range x.Edges {
+				if !carries(e, d+1) {
+					return false
+				}
+			}
+			return len(x.Edges) > 0
+		case *ssa.TypeAssert:
+			return carries(x.X, d+1)
+		case *ssa.Call:
+			if errT != nil && x.Call.Signature().Results().Len() == 1 && types.Identical(x.Call.Signature().Results().At(0).Type(), types.NewPointer(errT)) {
+				return true // a new error object built from it
+			}
+		case *ssa.Slice:
+			if el := variadicElems(x); len(el) == 1 && el[0] != nil {
+				return carries(el[0], d+1)
+			}
+		case *ssa.UnOp:
+			// a spilled result (defer): what was stored last
+			if al, ok := x.X.(*ssa.Alloc); ok && x.Op == token.MUL {
+				okAll, n := true, 0
+				for _, ar := range *al.Referrers() {
+					if st, isSt := ar.(*ssa.Store); isSt && st.Addr == ssa.Value(al) && st.Block() == x.Block() {
+						n++
+						if !carries(st.Val, d+1) {
+							okAll = false
+						}
+					}
+				}
+				return okAll && n > 0
+			}
+		}
+		return false
+	}
+	region := 0
+	var bad ssa.Instruction
+	why := ""
+	for _, b := range fn.Blocks {
+		if !errorFactOn(b, v, true) {
+			continue
+		}
+		region++
+		last := b.Instrs[len(b.Instrs)-1]
+		switch t := last.(type) {
+		case *ssa.Return:
+			if len(t.Results) == 0 || !carries(retSource(t, 0), 0) {
+				if bad == nil {
+					bad, why = t, "returns something that does not carry the error ("+valueDesc(retSource(t, 0))+")"
+				}
+			}
+		case *ssa.Panic:
+		default:
+			for _, sc := range b.Succs {
+				if !errorFactOn(sc, v, true) && bad == nil {
+					bad, why = last, "continues on the normal path"
+				}
+			}
+		}
+	}
+	if region == 0 {
+		return // returned untested, or tested in a way the facts do not show: the use rule above decides
+	}
+	key := fmt.Sprintf("%s|a failing Eval #%d fails the construct", fnKey(fn), cnt)
+	if bad == nil {
+		s.OK(rule, key, m.InstrPos(c), "on the isError side every path returns the error (itself, wrapped, or as the single element of the result list)")
+	} else {
+		s.Violation(rule, key, m.InstrPos(bad), "%s tests the result of e.Eval(%s) with isError, but on the error side it %s: the failure of a sub-expression is swallowed (or left among ordinary results where the callers do not look for it), so the render succeeds with a wrong page", fnKey(fn), valueDesc(c.Call.Args[1]), why)
+	}
 }
